@@ -77,16 +77,24 @@ type DB struct {
 }
 
 type Case struct {
-	ID      int      `json:"id"`
-	Query   string   `json:"query"`
-	Ctx     Ctx      `json:"ctx"`
-	Runs    int      `json:"runs"`
-	Class   []string `json:"class"`
-	AstML   string   `json:"ast_ml,omitempty"`
-	CtxML   string   `json:"ctx_ml,omitempty"`
-	SQL     []string `json:"sql,omitempty"`
-	Err     string   `json:"err,omitempty"`
-	ErrText string   `json:"err_text,omitempty"`
+	ID    int      `json:"id"`
+	Query string   `json:"query"`
+	Ctx   Ctx      `json:"ctx"`
+	Runs  int      `json:"runs"`
+	Class []string `json:"class"`
+	// re-execution (round 7, seeded C07-g): Runs = 1 + len(Rewin) Process calls on the ONE plan object, run k > 0 asks for the
+	// window Rewin[k-1] (what a tail does every tick). harness logqlsql returns one statement per run and the context of the
+	// later runs as terms (CtxMLRuns); enrich then judges the LAST statement against the LAST window: Ctx becomes that window,
+	// FirstCtx / FirstSQL keep what the plan was first processed with.
+	Rewin     [][2]int64 `json:"rewin,omitempty"`
+	CtxMLRuns []string   `json:"ctx_ml_runs,omitempty"`
+	FirstCtx  *Ctx       `json:"first_ctx,omitempty"`
+	FirstSQL  string     `json:"first_sql,omitempty"`
+	AstML     string     `json:"ast_ml,omitempty"`
+	CtxML     string     `json:"ctx_ml,omitempty"`
+	SQL       []string   `json:"sql,omitempty"`
+	Err       string     `json:"err,omitempty"`
+	ErrText   string     `json:"err_text,omitempty"`
 	// added by enrich
 	Skip   string   `json:"skip,omitempty"`
 	TreeML string   `json:"tree_ml,omitempty"`
@@ -582,6 +590,37 @@ func genParserQuery(r *rand.Rand) (string, []string) {
 	return q, class
 }
 
+// a label filter written BEHIND a json (with parameters) / regexp / drop stage: the filter LabelFilterPlanner evaluates in the
+// samples pipeline over the select of the planners in front of it (seeded C07-g); filters of either kind around it
+func genFilterBehindRelabel(r *rand.Rand) (string, []string) {
+	class := []string{"filter-behind-relabel"}
+	q := genMatchers(r)
+	for i := r.Intn(2); i > 0; i-- {
+		q += genFilter(r, &class)
+	}
+	switch r.Intn(3) {
+	case 0:
+		q += genJson(r, &class)
+	case 1:
+		q += genRegexp(r, &class)
+	default:
+		q += genDrop(r, &class)
+	}
+	class = append(class, "labelfilter")
+	q += " | " + genLF(r, 0)
+	for i := r.Intn(3); i > 0; i-- {
+		switch r.Intn(4) {
+		case 0:
+			q += genDrop(r, &class)
+		case 1:
+			q += genJson(r, &class)
+		default:
+			q += genFilter(r, &class)
+		}
+	}
+	return q, class
+}
+
 func genQuery(r *rand.Rand) (string, []string) {
 	if r.Intn(5) < 2 {
 		return genParserQuery(r)
@@ -965,9 +1004,9 @@ func reach(qi *qinfo, db DB) (lines []string, vals []string) {
 				}
 			case "line_format":
 				// missingkey=zero: a label the stream lacks prints "" (what Loki and the in-process engine of /repo do -
-			// internal_planner/planner_line_format.go - and what labels['x'] gives in ClickHouse); the default of
-			// text/template would print "<no value>"
-			tpl, err := template.New("t").Option("missingkey=zero").Parse(st.tmpl)
+				// internal_planner/planner_line_format.go - and what labels['x'] gives in ClickHouse); the default of
+				// text/template would print "<no value>"
+				tpl, err := template.New("t").Option("missingkey=zero").Parse(st.tmpl)
 				if err != nil {
 					continue
 				}
@@ -1022,6 +1061,10 @@ func fromDay(fromNs int64) int64 {
 	}
 	return d
 }
+
+// extraTss: further timestamps genDB draws from (set by enrich for a re-execution case: instants of the window the plan was
+// first processed with)
+var extraTss []int64
 
 func genDB(r *rand.Rand, qi *qinfo, c Ctx) DB {
 	names := append([]string{}, qi.labels...)
@@ -1213,6 +1256,10 @@ func genDB(r *rand.Rand, qi *qinfo, c Ctx) DB {
 	span := c.ToNs - c.FromNs
 	tss := []int64{c.FromNs - 1, c.FromNs, c.FromNs + 1, c.FromNs + span/2, c.ToNs - 1, c.ToNs, c.ToNs + 1, c.FromNs + span/2, c.FromNs + span/3}
 	nsam := 1 + r.Intn(4)
+	if len(extraTss) > 0 {
+		tss = append(tss, extraTss...)
+		nsam++
+	}
 	for i := 0; i < nsam; i++ {
 		s := db.Series[r.Intn(len(db.Series))]
 		// db_ok: a sample has the type of a series row of its fingerprint that the reader still looks at
@@ -1655,6 +1702,21 @@ func enrich(c *Case, seed int64, ndb int) {
 		c.Skip = "outside the fragment"
 		return
 	}
+	extraTss = nil
+	if k := len(c.Rewin); k > 0 && c.FirstCtx == nil {
+		if len(c.SQL) <= k || len(c.CtxMLRuns) < k {
+			c.Skip = "re-execution: the planner harness returned no statement for the last window"
+			return
+		}
+		first := c.Ctx
+		c.FirstCtx, c.FirstSQL = &first, c.SQL[0]
+		c.Ctx.FromNs, c.Ctx.ToNs = c.Rewin[k-1][0], c.Rewin[k-1][1]
+		c.CtxML = c.CtxMLRuns[k-1]
+		c.SQL = []string{c.SQL[k]}
+		// lines of the FIRST window too: a statement that still scans it returns them, the reference for the last window does not
+		fs := first.ToNs - first.FromNs
+		extraTss = []int64{first.FromNs, first.FromNs + fs/2, first.ToNs - 1, first.FromNs + fs/3}
+	}
 	tree, err := sqlparse.Parse(c.SQL[0])
 	if err != nil {
 		c.Skip = "sqlparse: " + err.Error()
@@ -1974,6 +2036,55 @@ func main() {
 				Limit: []int64{0, 0, 1, 2, 100}[r4.Intn(5)], Asc: r4.Intn(2) == 0, Cluster: r4.Intn(4) == 0,
 				Type: []uint8{0, 1, 1, 2}[r4.Intn(4)], Finalize: r4.Intn(6) != 0, StepMs: 1000, TZ: z.name,
 			}})
+		}
+		// re-execution (round 7, seeded C07-g), from a stream of its own: ONE plan object processed twice (rarely three times)
+		// with different windows, as QueryRangeService.Tail does every second (from = last delivered timestamp + 1, to = now);
+		// the LAST statement is judged against the LAST window. Half of the queries carry a label filter behind a json / regexp /
+		// drop stage (LabelFilterPlanner in the samples pipeline), the rest are queries of every class. Windows: the next one
+		// starts inside the previous one and ends later (tail), or starts where it ended, or lies before it.
+		r5 := hx.Rand(f.Seed*32452843 + 13)
+		for i := 0; i < f.N/6+6; i++ {
+			var q string
+			var class []string
+			switch r5.Intn(6) {
+			case 0:
+				q, class = genLineFormat(r5)
+			case 1:
+				q, class = genQuery(r5)
+			case 2:
+				q, class = genParserQuery(r5)
+			default:
+				q, class = genFilterBehindRelabel(r5)
+			}
+			from := int64(1700000000)*1e9 + int64(r5.Intn(4*86400))*1e9 + int64(r5.Intn(2))*int64(r5.Intn(1e9))
+			span := int64(1+r5.Intn(3600)) * 1e9
+			c := Case{ID: 4*f.N + i, Query: q, Class: append(class, "re-execution"), Ctx: Ctx{
+				FromNs: from, ToNs: from + span,
+				Limit: []int64{0, 0, 1, 2, 100}[r5.Intn(5)], Asc: r5.Intn(2) == 0, Cluster: r5.Intn(4) == 0,
+				Type: []uint8{0, 1, 1, 2}[r5.Intn(4)], Finalize: r5.Intn(6) != 0, StepMs: 1000,
+			}}
+			nwin := 1
+			if r5.Intn(5) == 0 {
+				nwin = 2
+			}
+			pf, pt := c.Ctx.FromNs, c.Ctx.ToNs
+			for k := 0; k < nwin; k++ {
+				var nf, nt int64
+				switch r5.Intn(6) {
+				case 0: // the next window starts where the previous one ended
+					nf, nt = pt, pt+int64(1+r5.Intn(3600))*1e9
+				case 1: // a window before the previous one
+					nt = pf - int64(r5.Intn(2))*int64(r5.Intn(600))*1e9
+					nf = nt - int64(1+r5.Intn(3600))*1e9
+				default: // tail: from = a delivered timestamp + 1, to = now
+					nf = pf + 1 + r5.Int63n(pt-pf)
+					nt = pt + int64(1+r5.Intn(30))*1e9 + int64(r5.Intn(2))*int64(r5.Intn(1e9))
+				}
+				c.Rewin = append(c.Rewin, [2]int64{nf, nt})
+				pf, pt = nf, nt
+			}
+			c.Runs = 1 + len(c.Rewin)
+			out.Put(c)
 		}
 	case "dbselftest":
 		// the database builder on queries with non-ASCII values: every database has ONE label set per fingerprint (compared
